@@ -523,7 +523,7 @@ pub fn run(ctx: &mut Ctx) {
     // revision counter is stale only if a multiple of 2^8 / 2^16 operations lies between two reads, and a monitor
     // that reads after every operation refreshes it every time.
     // (every stretch length up to 600 as well, for 8-bit counters that advance more than once per operation)
-    let mut widths: Vec<usize> = if ctx.is_fuzz() { vec![255, 256, 257] } else { vec![65535, 65536, 65537, 131072] };
+    let mut widths: Vec<usize> = if ctx.is_fuzz() { vec![] } else { vec![65535, 65536, 65537, 131072] }; // not tape-driven: skipped under the fuzzer
     if !ctx.is_fuzz() {
         widths.extend(1..=600usize);
     }
